@@ -790,7 +790,24 @@ interval_relation(const ITV& i,
   else {
     // `c' is an upper bound.
     if (i.upper_is_boundary_infinity()) {
-      return Poly_Con_Relation::strictly_intersects();
+      // Here `i' is not the universe: compare with its lower bound.
+      PPL_ASSERT(!i.lower_is_boundary_infinity());
+      assign_r(bound_diff, i.lower(), ROUND_NOT_NEEDED);
+      sub_assign_r(bound_diff, bound_diff, bound, ROUND_NOT_NEEDED);
+      switch (sgn(bound_diff)) {
+      case -1:
+        return Poly_Con_Relation::strictly_intersects();
+      case 0:
+        if (constraint_type == Constraint::STRICT_INEQUALITY
+            || i.lower_is_open()) {
+          return Poly_Con_Relation::is_disjoint();
+        }
+        else {
+          return Poly_Con_Relation::strictly_intersects();
+        }
+      case 1:
+        return Poly_Con_Relation::is_disjoint();
+      }
     }
     else {
       assign_r(bound_diff, i.upper(), ROUND_NOT_NEEDED);
@@ -961,6 +978,10 @@ Box<ITV>::relation_with(const Constraint& c) const {
   if (Box_Helpers::extract_interval_constraint(c, c_num_vars, c_only_var)) {
     if (c_num_vars == 0) {
       // c is a trivial constraint.
+      if (c.is_equality() && c.inhomogeneous_term() != 0) {
+        // The equality `b == 0', with `b != 0', is unsatisfiable.
+        return Poly_Con_Relation::is_disjoint();
+      }
       switch (sgn(c.inhomogeneous_term())) {
       case -1:
         return Poly_Con_Relation::is_disjoint();
